@@ -1,3 +1,4 @@
+import Firebolt.Properties.TransBase
 import Firebolt.Spec.Config
 import Firebolt.Generated.Source
 import Firebolt.Expected.Source
@@ -424,6 +425,98 @@ theorem source_getSourceRegistration : GeneratedSrc.getSourceRegistration = Expe
 
 /-! ### influence closure: the pinned functions, and every function of the repository that writes a struct field or package
 variable they read, are unchanged (digests regenerated from /repo on every run; a difference names the functions) -/
+/-! ### The code itself, translated (`Generated/Trans.lean`, rewritten from /repo on every run by extractor/translate.go)
+
+The `translated_*` theorems are about MiniGo terms the translator produced from the current Go source: for every
+environment the translated fragment does what the hand-written model function says.  They are semantic obligations —
+a rewrite that preserves the behaviour keeps them provable, a changed comparison, bound or argument does not. -/
+section Translated
+open Firebolt.MiniGo Firebolt.TransBase
+
+/-- config.Read, translated: a file that cannot be read or parsed is an error and nothing further happens; defaults are
+filled (`setDefaults`) before `validate` judges; a refused configuration is an error; an accepted one is returned with a
+missing or non-positive `shutdowntimeout` replaced by 10 and any other left alone -/
+theorem translated_cfgRead (σ : Env) :
+    let r := run Trans.cfgRead σ
+    let names := r.calls.map (·.1)
+    r.stuck = false ∧
+    (σ "os.ReadFile#1" ≠ 0 → r.ret = some [0, σ "os.ReadFile#1"] ∧ names = ["os.ReadFile"]) ∧
+    (σ "os.ReadFile#1" = 0 → σ "yaml.Unmarshal#0" ≠ 0 →
+        r.ret = some [0, σ "yaml.Unmarshal#0"] ∧ names = ["os.ReadFile", "[]byte", "yaml.Unmarshal"]) ∧
+    (σ "os.ReadFile#1" = 0 → σ "yaml.Unmarshal#0" = 0 →
+        names = ["os.ReadFile", "[]byte", "yaml.Unmarshal", "setDefaults", "validate"] ∧
+        (σ "validate#0" ≠ 0 → r.ret = some [0, σ "validate#0"]) ∧
+        (σ "validate#0" = 0 → r.ret = some [σ "&c", 0] ∧
+            r.env "c.ShutdownTimeOut" = if σ "c.ShutdownTimeOut" ≤ 0 then 10 else σ "c.ShutdownTimeOut")) := by
+  by_cases h1 : σ "os.ReadFile#1" = 0 <;> by_cases h2 : σ "yaml.Unmarshal#0" = 0 <;> by_cases h3 : σ "validate#0" = 0 <;>
+  by_cases h4 : σ "c.ShutdownTimeOut" ≤ 0 <;>
+  minigo_simp [Trans.cfgRead, h1, h2, h3, h4]
+
+/-- assignNodeConfigDefaults, translated: an empty id becomes the name, zero workers / buffer size become 1, everything else
+is left as given; the error handler (when there is one) and every child get the same treatment -/
+theorem translated_cfgNodeDefaults (σ : Env) :
+    let r := run Trans.cfgNodeDefaults σ
+    r.stuck = false ∧ r.ret = none ∧
+    r.env "n.ID" = (if σ "n.ID" = σ "\"\"" then σ "n.Name" else σ "n.ID") ∧
+    r.env "n.Workers" = (if σ "n.Workers" = 0 then 1 else σ "n.Workers") ∧
+    r.env "n.BufferSize" = (if σ "n.BufferSize" = 0 then 1 else σ "n.BufferSize") ∧
+    r.calls = (if σ "n.ErrorHandler" ≠ 0 then [("assignNodeConfigDefaults", [σ "n.ErrorHandler"])] else []) ++
+              [("foreach n.Children: assignNodeConfigDefaults", [σ "child"])] := by
+  by_cases h1 : σ "n.ID" = σ "\"\"" <;> by_cases h2 : σ "n.Workers" = 0 <;> by_cases h3 : σ "n.BufferSize" = 0 <;>
+  by_cases h4 : σ "n.ErrorHandler" = 0 <;>
+  minigo_simp [Trans.cfgNodeDefaults, h1, h2, h3, h4]
+
+/-- validateErrorHandlerConfig, translated: accepted exactly when the handler has no children, no handler of its own, a
+registered type, and that type consumes `*firebolt.EventError` (`fmt.Errorf` never returns nil: `hE`) -/
+theorem translated_cfgValidateHandler (σ : Env) (hE : σ "fmt.Errorf#0" ≠ 0) :
+    let r := run Trans.cfgValidateHandler σ
+    r.stuck = false ∧
+    (r.ret = some [0] ↔
+      (σ "n.Children" = 0 ∧ σ "n.ErrorHandler" = 0 ∧ σ "node.GetRegistry().GetNodeRegistration#0" ≠ 0 ∧
+       σ "r.Consumes" = σ "reflect.TypeOf#0")) ∧
+    (r.ret ≠ some [0] → r.ret = some [σ "fmt.Errorf#0"]) := by
+  by_cases h1 : σ "n.Children" = 0 <;> by_cases h2 : σ "n.ErrorHandler" = 0 <;>
+  by_cases h3 : σ "node.GetRegistry().GetNodeRegistration#0" = 0 <;> by_cases h4 : σ "r.Consumes" = σ "reflect.TypeOf#0" <;>
+  minigo_simp [Trans.cfgValidateHandler, h1, h2, h3, h4, hE]
+
+/-- validateInternalDataConfig: refused exactly when an internaldata section names a transport other than "kafka" -/
+theorem translated_cfgValidateInternalData (σ : Env) :
+    (run Trans.cfgValidateInternalData σ).ret =
+      (if σ "c.InternalData" ≠ 0 ∧ σ "c.InternalData.Transport" ≠ σ "\"kafka\"" then some [σ "fmt.Errorf#0"] else some [0]) := by
+  by_cases h1 : σ "c.InternalData" = 0 <;> by_cases h2 : σ "c.InternalData.Transport" = σ "\"kafka\"" <;>
+  minigo_simp [Trans.cfgValidateInternalData, h1, h2]
+
+/-- the parent/child type check of validateNodeConfig: the walk goes on (no return) exactly when the child's type is
+registered and consumes, by identity of the registered types, what the parent produces -/
+theorem translated_cfgChildTypeBody (σ : Env) :
+    ((run Trans.cfgChildTypeBody σ).ret = none ↔
+      (σ "node.GetRegistry().GetNodeRegistration#0" ≠ 0 ∧ σ "r.Produces" = σ "childRegistration.Consumes")) ∧
+    ((run Trans.cfgChildTypeBody σ).ret ≠ none → (run Trans.cfgChildTypeBody σ).ret = some [σ "fmt.Errorf#0"]) := by
+  by_cases h1 : σ "node.GetRegistry().GetNodeRegistration#0" = 0 <;> by_cases h2 : σ "r.Produces" = σ "childRegistration.Consumes" <;>
+  minigo_simp [Trans.cfgChildTypeBody, h1, h2]
+
+/-- the source/root type check of validateSourceConfig, likewise -/
+theorem translated_cfgRootTypeBody (σ : Env) :
+    ((run Trans.cfgRootTypeBody σ).ret = none ↔
+      (σ "node.GetRegistry().GetNodeRegistration#0" ≠ 0 ∧ σ "r.Produces" = σ "nodeReg.Consumes")) := by
+  by_cases h1 : σ "node.GetRegistry().GetNodeRegistration#0" = 0 <;> by_cases h2 : σ "r.Produces" = σ "nodeReg.Consumes" <;>
+  minigo_simp [Trans.cfgRootTypeBody, h1, h2]
+
+/-- validateUniqueID up to its loop: an id seen before is refused, a new one is recorded -/
+theorem translated_cfgUniqueIDHead (σ : Env) :
+    ((run Trans.cfgUniqueIDHead σ).ret = (if σ "lookup allIDs#1" ≠ 0 then some [σ "fmt.Errorf#0"] else none)) ∧
+    (σ "lookup allIDs#1" = 0 → (run Trans.cfgUniqueIDHead σ).env "allIDs[node.ID]" = σ "struct{}{}") := by
+  by_cases h1 : σ "lookup allIDs#1" = 0 <;> minigo_simp [Trans.cfgUniqueIDHead, h1]
+
+/-- **F1 at the level of the source**: the body of validateUniqueID's loop over the children *returns* — in every
+environment — with the result for the child at hand, so the loop never reaches a second child: only first-child spines are
+checked (the model's `uniqCode` follows the code; `C13.sibling_duplicate_accepted` is the witness) -/
+theorem translated_cfgUniqueIDBody_returns (σ : Env) :
+    (run Trans.cfgUniqueIDBody σ).ret = some [σ "validateUniqueID#0"] ∧
+    (run Trans.cfgUniqueIDBody σ).calls = [("validateUniqueID", [σ "allIDs", σ "child"])] := by
+  minigo_simp [Trans.cfgUniqueIDBody]
+end Translated
+
 theorem closure_unchanged : GeneratedClo.C13 = ExpectedClo.C13 := by rfl
 
 end Firebolt.C13
